@@ -8,6 +8,7 @@
 (*                 then fmt::vformat_to on the rewritten string; Fmt = the part of fmt that is used)  *)
 (*   MultiLine / Single / Dispatch = BackendWorker::_process_multi_line_message and the else branch   *)
 (*                 of _dispatch_transit_event_to_sinks;  RuntimeMeta = _apply_runtime_metadata        *)
+(*   SinkLoop / PieceLoop = BackendWorker::_write_log_statement (per-sink override pattern formatter)  *)
 (*   Md*         = MacroMetadata (positions computed from "path:line")                               *)
 (* Patterns are sequences over a small symbol alphabet; an attribute NAME is one symbol. Values are  *)
 (* sequences of value tokens of known length. TLC builds every pattern of <= MaxItems items          *)
@@ -235,6 +236,28 @@ SinkOuts(pat, b, multi, named) ==
       fs == MapFormat(pat, rw, b, Dispatch(multi, named, b.message), 1)
   IN [err |-> rw.rej \/ (\E i \in 1..Len(fs) : fs[i].err), outs |-> [i \in 1..Len(fs) |-> fs[i].out]]
 
+\* _write_log_statement for a logger with several sinks: for every piece the logger's formatter produces
+\* log_statement once; then PER SINK  log_to_write = log_statement, replaced by the sink's own formatter when the
+\* sink has override_pattern_formatter_options.  sinks: sequence of [ov |-> has override, pat |-> its pattern].
+RECURSIVE SinkLoop(_, _, _, _)
+SinkLoop(sinks, i, stmt, b) ==       \* what each sink is handed for one piece: sequence of [err, out]
+  IF i > Len(sinks) THEN <<>>
+  ELSE LET log_to_write == IF ~sinks[i].ov THEN stmt
+                           ELSE LET rwo == Rewrite(sinks[i].pat) IN
+                                IF rwo.rej THEN FmtErr ELSE FormatI(sinks[i].pat, rwo, b)
+       IN << log_to_write >> \o SinkLoop(sinks, i + 1, stmt, b)
+RECURSIVE PieceLoop(_, _, _, _, _, _)
+PieceLoop(pat, rw, b, pieces, i, sinks) ==
+  IF i > Len(pieces) THEN <<>>
+  ELSE LET bp == [b EXCEPT !.message = pieces[i]] IN
+       << SinkLoop(sinks, 1, FormatI(pat, rw, bp), bp) >> \o PieceLoop(pat, rw, b, pieces, i + 1, sinks)
+\* per sink: [err, outs]
+PerSinkOuts(pat, b, multi, named, sinks) ==
+  LET rw == Rewrite(pat)
+      rows == PieceLoop(pat, rw, b, Dispatch(multi, named, b.message), 1, sinks)
+  IN [k \in 1..Len(sinks) |-> [err |-> rw.rej \/ (\E i \in 1..Len(rows) : rows[i][k].err),
+                                outs |-> [i \in 1..Len(rows) |-> rows[i][k].out]]]
+
 (* ------------------------------------------------------------------ the state machine: case builder *)
 Used(a) == \E i \in 1..Len(p) : p[i].t \in {"attr", "open"} /\ p[i].a = a
 MsgPatterns == { << [t |-> "attr", a |-> "message", sp |-> 0] >>,
@@ -326,6 +349,24 @@ LinesOK ==
           bC == IF rt THEN Base(msg, (file \o <<":">>) \o line, fn) ELSE Base(msg, SrcFixed, fn)
           so == SinkOuts(f, bI, multi, named)
       IN ~so.err /\ so.outs \in C!AllowedOuts(f, C!AllVals(bC), multi, named)
+
+\* C12 per sink: every sink of a logger is handed the line of ITS effective pattern (the logger's pattern, or the
+\* sink's override pattern), whatever sinks were served before it; every arrangement of 1..3 sinks out of
+\* {plain, override A, override B}, both modes, multi-line messages
+OvA == Flat(<< [t |-> "lit", s |-> "x"], [t |-> "attr", a |-> "message", sp |-> 0], [t |-> "lit", s |-> "%"],
+               [t |-> "attr", a |-> "log_level", sp |-> 1] >>)
+OvB == Flat(<< [t |-> "attr", a |-> "thread_name", sp |-> 0], [t |-> "lit", s |-> ":"] >>)
+SinkArrangements == {s \in UNION {[1..n -> {"plain", "A", "B"}] : n \in 1..3} : \A i, j \in DOMAIN s : s[i] = s[j] => i = j}
+SinksOK ==
+  Phase = "message" =>
+    LET f == Flat(p)
+        b == Base(msg, SrcFixed, Val("caller_function"))
+        eff(k) == IF k = "plain" THEN f ELSE IF k = "A" THEN OvA ELSE OvB
+    IN \A multi \in BOOLEAN, named \in BOOLEAN, arr \in SinkArrangements :
+         LET sinks == [i \in DOMAIN arr |-> [ov |-> arr[i] # "plain", pat |-> eff(arr[i])]]
+             ps == PerSinkOuts(f, b, multi, named, sinks)
+         IN \A k \in DOMAIN arr :
+              ~ps[k].err /\ ps[k].outs \in C!AllowedOuts(eff(arr[k]), C!AllVals(b), multi, named)
 
 \* the model's line splitting is exactly: split mode -> the contract's lines; whole mode -> one newline stripped
 SplitExact ==
